@@ -18,7 +18,7 @@ try:
     subprocess.run(["git", "-C", repo, "apply", os.path.join(d, "patch.diff")], check=True)
     for pid in ids:
         outdir = os.path.join(tmp, "ev")
-        env = dict(os.environ, VERIF_REPO=repo, VERIF_EVIDENCE_DIR=outdir, VERIF_STOP_AT_FIRST="1")
+        env = dict(os.environ, VERIF_REPO=repo, VERIF_EVIDENCE_DIR=outdir, VERIF_REPLAY_DIR=os.path.join(tmp, "replays"), VERIF_STOP_AT_FIRST="1")
         p = subprocess.run(["/verif/check", pid, tier], capture_output=True, text=True, cwd="/verif", env=env)
         asserts = sorted(set(l.split()[2] for l in p.stdout.splitlines() if l.startswith("  violated")))
         nviol = sum(1 for l in p.stdout.splitlines() if l.startswith("VIOLATION"))
